@@ -285,3 +285,14 @@ func firstLines(s string, n int) string {
 	}
 	return strings.Join(lines, "\n    ")
 }
+
+// ViolationKeys returns the set of violation keys recorded so far (used by replay).
+func (r *Run) ViolationKeys() map[string]bool {
+	r.mu.Lock()
+	defer r.mu.Unlock()
+	out := map[string]bool{}
+	for k := range r.viol {
+		out[k] = true
+	}
+	return out
+}
